@@ -182,7 +182,7 @@ func init() {
 	}
 	sup.Register(&sup.Check{
 		Prop: "C09", Level: "exploration",
-		Rule: "(snapshot) engine A: at quiescent points Dump feeds are started from start CAS in {0, a median CAS, the maximum, maximum+1, the touched key's CAS} (every fourth one KeysOnly) and compared with the current read-back of every key: bracketed by the markers, in CAS order, exactly the documents (tombstones included) with CAS >= start, once each, every field equal to what a live event for that state carries and, where the live feed delivered the same version (CAS, RevNo), equal field by field to that live event; (join) a backfill+live feed is started while 2-6 writers run and the feed.registered hook parks the starter between end of backfill and registration until further writes have been acknowledged; after a fence the newest event received for every key must be its final version; (large backfill) 260-340 documents with groups of 2-3 sharing one CAS at fixed and PRNG positions, dumps from 0 / median / each group's CAS / CAS+1; KeysOnly backfill events are compared with the KeysOnly live event of the same version; WithMeta writers in the join races; cell = (variant, pre-state, outcome, bucket type) / (writers, writes inside the window)",
+		Rule: "(snapshot) engine A: at quiescent points Dump feeds are started from start CAS in {0, a median CAS, the maximum, maximum+1, the touched key's CAS} (every fourth one KeysOnly) and compared with the current read-back of every key: bracketed by the markers, in CAS order, exactly the documents (tombstones included) with CAS >= start, once each, every field equal to what a live event for that state carries and, where the live feed delivered the same version (CAS, RevNo), equal field by field to that live event; (join) a backfill+live feed is started while 2-6 writers run and the feed.registered hook parks the starter between end of backfill and registration until further writes have been acknowledged; after a fence the newest event received for every key must be its final version; (large backfill) 260-340 documents with groups of 2-3 sharing one CAS at fixed and PRNG positions, dumps from 0 / median / each group's CAS / CAS+1; KeysOnly backfill events are compared with the KeysOnly live event of the same version; WithMeta writers in the join races; (stale DataStore) a Dump backfill by name through a handle whose cache predates the collection's re-creation must deliver the documents that exist now; cell = (variant, pre-state, outcome, bucket type) / (writers, writes inside the window)",
 		Assumptions: kvAssume,
 		Parts: append(c09SeqParts(),
 			mk("C09", "large-backfill", 40, 800, false, func(c *sup.Ctx, r *rng.R, _ []string) { largeBackfillScenario(c, r) }),
